@@ -317,3 +317,191 @@ Theorem C12_merkle_weaker_guard_panics :
   extract_gen bytes node_hash bytes_eqb Nat.ltb 1 [] (bits_of_bytes [x00]) = IxPanic.
 Proof. exact weaker_guard_panics. Qed.
 Print Assumptions C12_merkle_weaker_guard_panics.
+
+(* ---------- output descriptors (descriptor.Parse and the wallet it returns; model Model/Descriptor.v, compared
+   with the implementation by the correspondence family desc).  Text is the list of bytes of the Go string; the
+   answers of btcec.ParsePubKey, btcutil.DecodeWIF and hdkeychain are the record `o`, universally quantified.
+   Names are qualified (Desc = model, DescP = Proofs/Descriptor.v) and the block is a module, so that nothing is
+   shadowed for later blocks. ---------- *)
+From GE Require Import Model.Descriptor Proofs.Descriptor.
+Require Coq.Strings.String.
+Module C12Desc.
+Import Coq.Strings.String.   (* string literals for the example texts; local to this module *)
+
+(* every index and slice expression of the parser is guarded: a wallet or an error, never a run-time panic *)
+Theorem C12_descriptor_parse_no_panic : forall o d, Desc.parse o d <> Desc.PPanic.
+Proof. exact DescP.descriptor_parse_no_panic. Qed.
+Print Assumptions C12_descriptor_parse_no_panic.
+
+(* ... which rests on the guard of commit a950a3e: with the slicing test it replaced, the same parser panics *)
+Theorem C12_descriptor_parse_before_a950a3e_panics :
+  Desc.parse_before_a950a3e DescP.o_none (DescP.txt "elwpkh(]x)") = Desc.PPanic.
+Proof. exact DescP.DescEx1.parse_before_a950a3e_panics. Qed.
+Print Assumptions C12_descriptor_parse_before_a950a3e_panics.
+
+(* a value or an error, never neither *)
+Theorem C12_descriptor_parse_value_or_error : forall o d, Desc.parse o d <> Desc.PNilNil.
+Proof. exact DescP.descriptor_parse_value_or_error. Qed.
+Print Assumptions C12_descriptor_parse_value_or_error.
+
+(* ... the shape before commit 8813a4b: (nil, nil) for every name the switch knows but does not implement *)
+Theorem C12_descriptor_parse_before_8813a4b_nilnil :
+  forallb (fun name => match Desc.parse_before_8813a4b DescP.o_none (name ++ DescP.txt "(x)") with Desc.PNilNil => true | _ => false end)
+          Desc.unsupported_names = true.
+Proof. exact DescP.DescEx2.parse_before_8813a4b_nilnil. Qed.
+Print Assumptions C12_descriptor_parse_before_8813a4b_nilnil.
+
+(* white space in front of the checksum separator is irrelevant *)
+Theorem C12_descriptor_whitespace_irrelevant : forall o a c b,
+  Desc.is_space c = true -> DescP.cnt "#"%byte a = O -> Desc.parse o (a ++ c :: b) = Desc.parse o (a ++ b).
+Proof. exact DescP.descriptor_whitespace_irrelevant. Qed.
+Print Assumptions C12_descriptor_whitespace_irrelevant.
+
+Theorem C12_descriptor_parse_stripped : forall o d,
+  DescP.cnt "#"%byte d = O -> Desc.parse o (Desc.strip_spaces d) = Desc.parse o d.
+Proof. exact DescP.descriptor_parse_stripped. Qed.
+Print Assumptions C12_descriptor_parse_stripped.
+
+(* ... but inside or behind the checksum it counts towards the length that is checked (before white space is removed) *)
+Theorem C12_descriptor_whitespace_in_checksum_matters :
+  DescP.is_ok (Desc.parse DescP.o_none (DescP.txt "elwpkh(xpub)#12345678")) = true /\
+  DescP.is_err (Desc.parse DescP.o_none (DescP.txt "elwpkh(xpub)#12345678" ++ [x0a])) = true /\
+  DescP.is_ok (Desc.parse DescP.o_none (DescP.txt "elwpkh(xpub)" ++ [x0a])) = true /\
+  DescP.is_err (Desc.parse DescP.o_none (DescP.txt "elwpkh(xpub)#1234 5678")) = true /\
+  DescP.is_ok (Desc.parse DescP.o_none (DescP.txt "elwpkh(xpub)#        ")) = true.
+Proof. exact DescP.DescEx3.whitespace_in_checksum_matters. Qed.
+Print Assumptions C12_descriptor_whitespace_in_checksum_matters.
+
+(* what an accepted text looks like: an optional `#` + 8 characters; in front of it, after removal of white space,
+   `elwpkh(` inner `)` where the closing parenthesis is the last one of the text, and inner is a key expression *)
+Theorem C12_descriptor_accepted_shape : forall o d w, Desc.parse o d = Desc.POk w ->
+  exists body inner pre post,
+    (d = body \/ exists ck, d = body ++ "#"%byte :: ck /\ List.length ck = 8%nat /\ DescP.cnt "#"%byte ck = O) /\
+    DescP.cnt "#"%byte body = O /\
+    Desc.strip_spaces body = pre ++ Desc.Lit.elwpkh ++ "("%byte :: inner ++ ")"%byte :: post /\
+    inner <> [] /\ DescP.cnt ")"%byte post = O /\
+    Desc.parse_key_expression false o inner = Desc.Ok w.
+Proof. exact DescP.descriptor_accepted_shape. Qed.
+Print Assumptions C12_descriptor_accepted_shape.
+
+(* exactly one of the three key fields of an accepted wallet is set, and it passed its test *)
+Theorem C12_descriptor_accepted_one_key : forall o d w, Desc.parse o d = Desc.POk w -> DescP.one_key o w.
+Proof. exact DescP.descriptor_accepted_one_key. Qed.
+Print Assumptions C12_descriptor_accepted_one_key.
+
+(* path components: the number written (math/big syntax, base prefixes, separators), plus 2^31 when marked hardened,
+   checked against MaxUint32 - 2^31 resp. MaxUint32, so the uint32 addition does not wrap *)
+Theorem C12_descriptor_path_component_exact : forall c v, Desc.parse_component c = Desc.Ok v ->
+  exists base text z, (base = 0 \/ base = Desc.hardened_key_start) /\ Desc.int_set_string0 text = Some z /\
+                      (0 <= z)%Z /\ v = base + Z.to_N z /\ v <= u32max.
+Proof. exact DescP.parse_component_exact. Qed.
+Print Assumptions C12_descriptor_path_component_exact.
+
+(* strict prefixes.  Nothing without a closing parenthesis is accepted ... *)
+Theorem C12_descriptor_no_close_paren_rejected : forall o d, DescP.cnt ")"%byte d = O -> Desc.parse o d = Desc.PErr.
+Proof. exact DescP.descriptor_no_close_paren_rejected. Qed.
+Print Assumptions C12_descriptor_no_close_paren_rejected.
+
+(* ... so for a descriptor whose only closing parenthesis is its last character every strict prefix is refused; *)
+Theorem C12_descriptor_strict_prefix_rejected : forall o b p,
+  DescP.cnt ")"%byte b = O -> DescP.strict_prefix p (b ++ [")"%byte]) -> Desc.parse o p = Desc.PErr.
+Proof. exact DescP.descriptor_strict_prefix_rejected. Qed.
+Print Assumptions C12_descriptor_strict_prefix_rejected.
+
+(* a cut inside the checksum is refused (any checksum part whose length is not 8 is, whatever stands in front); *)
+Theorem C12_descriptor_bad_checksum_length_rejected : forall o body c,
+  List.length c <> 8%nat -> Desc.parse o (body ++ "#"%byte :: c) = Desc.PErr.
+Proof. exact DescP.descriptor_bad_checksum_length_rejected. Qed.
+Print Assumptions C12_descriptor_bad_checksum_length_rejected.
+
+(* the checksum is optional by format: cutting it off whole leaves the same answer ... *)
+Theorem C12_descriptor_checksum_optional : forall o body ck,
+  DescP.cnt "#"%byte body = O -> DescP.cnt "#"%byte ck = O -> List.length ck = 8%nat ->
+  Desc.parse o (body ++ "#"%byte :: ck) = Desc.parse o body.
+Proof. exact DescP.descriptor_checksum_optional. Qed.
+Print Assumptions C12_descriptor_checksum_optional.
+
+(* ... and that is the only strict prefix of `text)#checksum` that can be accepted *)
+Theorem C12_descriptor_strict_prefixes_with_checksum : forall o b ck p,
+  DescP.cnt ")"%byte b = O -> List.length ck = 8%nat ->
+  DescP.strict_prefix p (b ++ ")"%byte :: "#"%byte :: ck) -> Desc.parse o p <> Desc.PErr -> p = b ++ [")"%byte].
+Proof. exact DescP.descriptor_strict_prefixes_with_checksum. Qed.
+Print Assumptions C12_descriptor_strict_prefixes_with_checksum.
+
+(* hence the literal clause (no strict prefix of an accepted text is accepted) fails, by format *)
+Theorem C12_descriptor_strict_prefix_literal_refuted :
+  exists o s p, DescP.strict_prefix p s /\ DescP.accepted o s /\ DescP.accepted o p.
+Proof. exact DescP.DescEx3.strict_prefix_literal_refuted. Qed.
+Print Assumptions C12_descriptor_strict_prefix_literal_refuted.
+
+(* the expression is searched for, not anchored (regexp FindStringSubmatch): text behind the last closing parenthesis
+   and text without word characters in front are not looked at *)
+Theorem C12_descriptor_trailing_text_ignored : forall o s t,
+  DescP.cnt "#"%byte s = O -> DescP.cnt "#"%byte t = O -> DescP.cnt ")"%byte t = O ->
+  Desc.parse o ((s ++ [")"%byte]) ++ t) = Desc.parse o (s ++ [")"%byte]).
+Proof. exact DescP.descriptor_trailing_text_ignored. Qed.
+Print Assumptions C12_descriptor_trailing_text_ignored.
+
+Theorem C12_descriptor_leading_text_ignored : forall o t s,
+  DescP.cnt "#"%byte t = O -> forallb (fun c => negb (Desc.is_word c)) t = true -> Desc.parse o (t ++ s) = Desc.parse o s.
+Proof. exact DescP.descriptor_leading_text_ignored. Qed.
+Print Assumptions C12_descriptor_leading_text_ignored.
+
+(* the model of the regular expression reports a match exactly when the subject contains one *)
+Theorem C12_descriptor_regexp_sound : forall s whole f inner, Desc.find_submatch s = Some [whole; f; inner] ->
+  exists pre post, s = pre ++ f ++ "("%byte :: inner ++ ")"%byte :: post /\ f <> [] /\ forallb Desc.is_word f = true /\
+                   inner <> [] /\ DescP.cnt ")"%byte post = O.
+Proof. exact DescP.find_submatch_sound. Qed.
+Print Assumptions C12_descriptor_regexp_sound.
+
+Theorem C12_descriptor_regexp_complete : forall pre f inner post,
+  f <> [] -> forallb Desc.is_word f = true -> inner <> [] ->
+  Desc.find_submatch (pre ++ f ++ "("%byte :: inner ++ ")"%byte :: post) <> None.
+Proof. exact DescP.find_submatch_complete. Qed.
+Print Assumptions C12_descriptor_regexp_complete.
+
+(* follow-up calls.  Script never panics: any wallet value, any options a caller can build (nil, WithIndex, WithRange,
+   the zero value), any answer of hdkeychain *)
+Theorem C12_descriptor_script_no_panic : forall o w opts, Desc.script o w opts <> Desc.Panic.
+Proof. exact DescP.descriptor_script_no_panic. Qed.
+Print Assumptions C12_descriptor_script_no_panic.
+
+Theorem C12_descriptor_script_zero_options : forall o w, Desc.script o w Desc.OZero = Desc.script o w Desc.ONil.
+Proof. exact DescP.descriptor_script_zero_options. Qed.
+Print Assumptions C12_descriptor_script_zero_options.
+
+(* ... before commit 84bb833 the zero value dereferenced a nil pointer on range descriptors *)
+Theorem C12_descriptor_script_zero_options_before_84bb833 :
+  exists w, Desc.parse DescP.o_none (DescP.txt "elwpkh(xpub/1/*)") = Desc.POk w /\
+            Desc.script_before_84bb833 DescP.o_none w Desc.OZero = Desc.Panic /\ Desc.script DescP.o_none w Desc.OZero <> Desc.Panic.
+Proof. exact DescP.DescEx3.script_zero_options_before_84bb833. Qed.
+Print Assumptions C12_descriptor_script_zero_options_before_84bb833.
+
+(* an accepted public-key or WIF wallet always yields its one script (the key passed the same test at parse time) *)
+Theorem C12_descriptor_script_of_pubkey : forall o d w k opts, Desc.parse o d = Desc.POk w -> Desc.ki_pub w = Some k ->
+  exists raw, Desc.hex_decode k = Some raw /\ Desc.script o w opts = Desc.Ok [([], Desc.wpkh_script raw)].
+Proof. exact DescP.descriptor_script_of_pubkey. Qed.
+Print Assumptions C12_descriptor_script_of_pubkey.
+
+Theorem C12_descriptor_script_of_wif : forall o d w k opts, Desc.parse o d = Desc.POk w -> Desc.ki_wif w = Some k ->
+  exists pub, Desc.o_wif o k = Some pub /\ Desc.script o w opts = Desc.Ok [([], Desc.wpkh_script pub)].
+Proof. exact DescP.descriptor_script_of_wif. Qed.
+Print Assumptions C12_descriptor_script_of_wif.
+
+(* WithRange(n) on an accepted range wallet: n scripts or an error *)
+Theorem C12_descriptor_script_range_count : forall o d w n l, Desc.parse o d = Desc.POk w -> Desc.is_range w = true ->
+  Desc.script o w (Desc.ORange n) = Desc.Ok l  -> List.length l = Z.to_nat n.
+Proof. exact DescP.descriptor_script_range_count. Qed.
+Print Assumptions C12_descriptor_script_range_count.
+
+(* laxities that are outside the clauses of the property, recorded as they are: text around the expression is ignored,
+   the inner text runs to the last closing parenthesis, an extended key is recognised by its first four characters *)
+Theorem C12_descriptor_unanchored_and_prefix_only :
+  DescP.is_ok (Desc.parse DescP.o_none (DescP.txt "!!elwpkh(xpubgarbage)zz")) = true /\
+  DescP.is_ok (Desc.parse DescP.o_none (DescP.txt "elwpkh(xpubAAA)/1)")) = true /\
+  DescP.is_err (Desc.parse DescP.o_none (DescP.txt "a(b)elwpkh(xpub)")) = true /\
+  DescP.is_err (Desc.parse DescP.o_none (DescP.txt "xelwpkh(xpub)")) = true.
+Proof. exact DescP.DescEx3.unanchored_and_prefix_only. Qed.
+Print Assumptions C12_descriptor_unanchored_and_prefix_only.
+
+End C12Desc.
